@@ -42,6 +42,7 @@ pub fn c13(t: &Trace, r: &mut Report) {
     let mut last_y: Option<f64> = None;
     let mut dir = 0i32; // direction of travel inside the run
     let mut sr = 0.0f32;
+    let mut retimed = false; // a set_time call since the previous sample
     for i in 0..t.ops.len() {
         let op = &t.ops[i];
         if op.is_empty() {
@@ -72,12 +73,15 @@ pub fn c13(t: &Trace, r: &mut Report) {
                     continue;
                 }
                 if t.obs[i].first() == Some(&"PANIC") {
+                    r.eval();
+                    r.fail(i, start, "panic", format!("set_time({}) panicked at sample rate {}", tt, sr));
                     active = false;
                     continue;
                 }
                 if let Some(g) = parse(&t.obs[i]) {
                     alpha_min = alpha_min.min(g.b0 as f64);
                 }
+                retimed = true;
                 // no reset here: with the input held, the output must keep moving toward it (never away, never
                 // back and forth) whatever the coefficient schedule is
             }
@@ -127,6 +131,18 @@ pub fn c13(t: &Trace, r: &mut Report) {
                         if (y - x as f64).abs() > (py - x as f64).abs() + rh {
                             r.fail(i, start, "diverge", format!("with the input held at {} the output moved away: {} -> {}", x, py, y));
                         }
+                        // settles on it: a sample that leaves the output where it was, with the same input and the same
+                        // coefficients, is a fixed point of the (deterministic, one-pole) recurrence -- the output
+                        // stays there for ever.  That is only acceptable within the resolution of the filter.
+                        if !retimed && run_len >= 2 && y == py && (y - x as f64).abs() > rh {
+                            r.fail_d(
+                                i,
+                                start,
+                                "stuck",
+                                format!("with the input held at {} the output stopped at {} and can never settle on the input (resolution {:.3e})", x, y, rh),
+                                vec![("x".into(), x as f64), ("y".into(), y)],
+                            );
+                        }
                     }
                 } else {
                     run_x = Some(x);
@@ -137,6 +153,7 @@ pub fn c13(t: &Trace, r: &mut Report) {
                     r.samples.push(format!("line {}: fs {} input {} output {} range [{}, {}]", i, sr, x, y, lo, hi));
                 }
                 last_y = Some(y);
+                retimed = false;
             }
             _ => {}
         }
@@ -184,13 +201,17 @@ pub fn c14(t: &Trace, r: &mut Report) {
                 let tt = fbits(op[1]);
                 // -0.0 is not treated as the "glide off" setting by the crate (1/-0 = -inf selects the slowest
                 // glide); the property's range is read as +0 or positive times, see DESIGN.md §2
-                if !(tt >= 0.0) || tt.is_infinite() || tt.is_sign_negative() {
+                if !(tt >= 0.0) || tt.is_sign_negative() {
                     active = false;
                     continue;
                 }
                 let g = match parse(&t.obs[i]) {
                     Some(g) => g,
                     None => {
+                        if t.obs[i].first() == Some(&"PANIC") {
+                            r.eval();
+                            r.fail(i, start, "panic", format!("set_time({}) panicked at sample rate {}", tt, sr));
+                        }
                         active = false;
                         continue;
                     }
